@@ -57,10 +57,12 @@ func Run(file *paths.Path, profile string) (string, error) {
 	var err error
 	opt := NewOption(file)
 	for _, b := range Builds {
+		before := profile
 		profile, err = b.Apply(opt, profile)
 		if err != nil {
 			return "", fmt.Errorf("%s %s: %w", b.Name(), opt.File, err)
 		}
+		prebuild.VerifTrace("builder", "name", b.Name(), "file", opt.File.String(), "before", before, "after", profile)
 	}
 	return profile, nil
 }
